@@ -103,7 +103,25 @@ def slopes_close(apts, lpts):
     return abs((by - ay) / (bx - ax) - (dy - cy) / (dx - cx)) < F(2, 10 ** 7)
 
 
+def cardano_window(apts, lpts):
+    """K16 classifier: a cubic whose aligned polynomial has a leading coefficient between 1e-6 and 3e-5 of its largest other coefficient
+    (just above the threshold below which _findRoots solves a quadratic instead): the Cardano discriminant q2*q2 + p3*p3*p3 cancels"""
+    if len(apts) != 4 or lpts[0] == lpts[1]:
+        return False
+    g, _px, _py, _dx, _dy = carrier_poly(apts, lpts)
+    g = list(g) + [F(0)] * (4 - len(g))
+    big = max(abs(g[0]), abs(g[1]), abs(g[2]))
+    return big > 0 and F(1, 10 ** 6) < abs(g[3]) / big < F(3, 10 ** 5)
+
+
 def check_pair(apts, lpts):
+    r = check_pair_raw(apts, lpts)
+    if r and not r.startswith("skip:") and r != "K7" and cardano_window(apts, lpts) and ("reports" in r or "apart" in r):
+        return "K16"
+    return r
+
+
+def check_pair_raw(apts, lpts):
     exp = expected(apts, lpts)
     if isinstance(exp, str):
         return "skip:" + exp
@@ -418,6 +436,15 @@ def search(ctx, budget):
     i = -1
     for i in range(n):
         apts, lpts = rand_pair(rng, i)
+        if i % 50 == 37:
+            # K16 family: an almost degree-elevated quadratic (cubic coefficient a few 1e-6 of the others) dipping a little through a
+            # long line, or staying a little clear of it
+            W = float(rng.choice([3000, 1500, 6000]))
+            Hh = float(rng.choice([240000, 210000, 120000]))
+            dip = rng.choice([-80020.0, -69998.0, -80010.0]) * Hh / 240000.0 if rng.random() < 0.7 else -Hh / 3 - rng.uniform(5, 40)
+            x0, y0 = float(rng.randint(-100, 100)), float(rng.randint(-50, 50))
+            apts = [(x0, y0 + Hh), (x0 + W / 3, y0 + dip), (x0 + 2 * W / 3, y0 + dip), (x0 + W, y0 + Hh + 1.0)]
+            lpts = [(x0, y0), (x0 + W, y0)]
         inp = {"apts": apts, "lpts": lpts}
         msg = check_pair(apts, lpts)
         if msg and msg.startswith("skip:"):
@@ -432,7 +459,7 @@ def search(ctx, budget):
                 nontriv += 1
         if msg:
             viol.append({"what": msg, "input": inp})
-            if len([v for v in viol if v["what"] not in ("K7",)]) >= 5:
+            if len([v for v in viol if v["what"] not in ("K7", "K16")]) >= 5:
                 break
         if len(samples) < 3:
             samples.append(inp)
@@ -440,7 +467,7 @@ def search(ctx, budget):
 
 
 def classify(v, entry):
-    return entry["id"] in ("K7",) and v.get("what") == entry["id"]
+    return entry["id"] in ("K7", "K16") and v.get("what") == entry["id"]
 
 
 def replay(v):
